@@ -73,6 +73,7 @@ fn main() {
                 verif_dir: arg_val(&args, "--verif").unwrap_or_else(|| "/verif".into()),
                 minimise_budget_s: arg_val(&args, "--minimise-s").and_then(|s| s.parse().ok()).unwrap_or(if ctx.tier == "thorough" { 240 } else { 60 }),
                 time_budget_s: arg_val(&args, "--time-s").and_then(|s| s.parse().ok()),
+                known_path: arg_val(&args, "--known").unwrap_or_else(|| format!("{}/known_findings.json", arg_val(&args, "--verif").unwrap_or_else(|| "/verif".into()))),
             };
             std::process::exit(driver::drive(eng, ctx, cfg));
         }
